@@ -169,7 +169,81 @@ def sh(cmd, **kw):
 def restore():
     sh(f"git -C {REPO} checkout -- . && git -C {REPO} clean -fdq")
 
+def hunks_of(patch_path):
+    """unified diff -> [(file, old, new)] (one edit per hunk; old == "" creates the file)."""
+    edits, cur, old, new, newfile = [], None, [], [], False
+    def flush():
+        nonlocal old, new
+        if cur and (old or new):
+            edits.append((cur, "".join(old), "".join(new)))
+        old, new = [], []
+    for line in open(patch_path).read().splitlines(keepends=True):
+        if line.startswith("diff --git "):
+            flush(); cur = None; newfile = False
+        elif line.startswith("new file mode"):
+            newfile = True
+        elif line.startswith("--- "):
+            pass
+        elif line.startswith("+++ "):
+            cur = line[4:].strip()
+            cur = cur[2:] if cur.startswith("b/") else cur
+        elif line.startswith("@@"):
+            flush()
+        elif cur is None or line.startswith("\\"):
+            continue
+        elif line.startswith("+"):
+            new.append(line[1:])
+        elif line.startswith("-"):
+            old.append(line[1:])
+        elif line.startswith(" "):
+            old.append(line[1:]); new.append(line[1:])
+    flush()
+    return edits
+
+def export(path):
+    import hashlib
+    assert sh(f"git -C {REPO} status --porcelain").stdout.strip() == "", "repo tree must be clean"
+    out = []
+    for id, prop, rule, edits in M:
+        es = []
+        for (f, old, new) in edits:
+            if f == "@patch":
+                es += hunks_of(old)
+            else:
+                es.append((f, old, new))
+        # skip no-op edits, verify applicability (sequentially, per file)
+        cur, ok, js = {}, True, []
+        for (f, old, new) in es:
+            if old == new:
+                continue
+            fp = os.path.join(REPO, f)
+            if f not in cur:
+                cur[f] = open(fp).read() if os.path.exists(fp) else None
+            base = None
+            if os.path.exists(fp):
+                base = hashlib.sha256(open(fp, "rb").read()).hexdigest()
+            if cur[f] is None:
+                if old != "":
+                    ok = False; break
+                cur[f] = new
+            else:
+                if old == "" or old not in cur[f]:
+                    ok = False; break
+                cur[f] = cur[f].replace(old, new, 1)
+            e = {"file": f, "old": old, "new": new}
+            if base:
+                e["base_sha256"] = base
+            js.append(e)
+        if not ok or not js:
+            print(f"export: {id} skipped (does not apply as text edits)")
+            continue
+        out.append({"id": id, "property": prop, "rule": rule, "edits": js})
+    json.dump(out, open(path, "w"), indent=1)
+    print(f"exported {len(out)} reference variants to {path}")
+
 def main():
+    if len(sys.argv) > 1 and sys.argv[1] == "--export":
+        export(sys.argv[2] if len(sys.argv) > 2 else "/verif/positives.json"); return
     want = set(sys.argv[1:])
     results = []
     assert sh(f"git -C {REPO} status --porcelain").stdout.strip() == "", "repo tree must be clean"
